@@ -172,6 +172,24 @@ CARRIERS = [
     "x = [\n  1,\n\n  # c\n  2\n]\n",
     "f(a,\n  b\n  c)\n",
     "s = \"\"\"a\nb\n\"\"\" 1\n",
+    # diagnostics whose reported node spans several lines (implicit string concatenation, brackets)
+    "(\"aaaaaaaaaa\"\n \"b\") = 1\n",
+    "x = {\"k\": 1, \"aaaaaaaaaaaaaaa\"\n  \"b\"}\n",
+    "del (\"aaaaaaaa\"\n  \"b\")\n",
+    "for \"aaaaaaaaaaa\" \\\n \"b\" in x: pass\n",
+    "with a as (\"aaaaaaaaa\"\n \"b\"): pass\n",
+    "(a,\n b + 1,\n c) = 1\n",
+    "[a, f(\n 1,\n 2)] = 1\n",
+    "del (a,\n  b(),\n  c)\n",
+    "f(a for a in b,\n  c)\n",
+    "x = {1: 2,\n  **a,\n  3}\n",
+    "f(a=1,\n  **b,\n  *c,\n  d)\n",
+    "\"\"\"a\nb\"\"\" = 1\n",
+    "x = (\"\"\"a\nb\"\"\"\n  'c' 1)\n",
+    "lambda x, (\n y): 1\n",
+    "def f(a,\n   b=1,\n   c): pass\n",
+    "import (a,\n  b)\n",
+    "from a import (b,\n  c,\n  )\nfrom d import (\n)\n",
     # version-gated constructs
     "try:\n    pass\nexcept* E:\n    pass\n",
     "type X = int\n",
